@@ -26,7 +26,9 @@ EXPLANATION = (
     "exactly N+1 lines to the table parser, prints the filled table without index and echoes the rest; every reader, writer and re-emitter "
     "of these formats opens its file with one text encoding (R17.6).")
 NOT_DECIDED = "round-trip equality for values outside the written precision/width (formatting overflow above 1e5 is a numerical matter)."
-ASSUMPTIONS = ["documented formats of the phonon data file and static table (reference texts written out in the rule)"]
+ASSUMPTIONS = ["documented formats of the phonon data file and static table (reference texts written out in the rule)",
+               "T-LIB: pandas.read_table/read_csv return the double nearest to the printed number only with float_precision='round_trip' (pandas documentation; the "
+               "default and 'high' converters are off by one unit in the last place for some 16-17 digit numbers, demonstrated by seeded/C17K)"]
 
 
 def nt(cls, fields, values):
@@ -78,6 +80,8 @@ def plain(v):
     if isinstance(v, DictV):
         return {getattr(k, "name", k): plain(x) for k, x in v.d.items()}
     if is_sym(v):
+        if not v.is_number:
+            return str(v)           # an expression that is not the tabulated number (an opaque atom survived): compares unequal to it
         return int(v) if v.is_Integer else float(v)
     return v
 
@@ -285,6 +289,66 @@ V c11 c12
 """
 
 
+class TextBuffer:
+    """io.StringIO(text)"""
+
+    def __init__(self, text):
+        self.text = text
+
+
+class ParsedRows:
+    """pandas.read_table(buffer, sep=whitespace, header=None): the whitespace-separated fields of every line as numbers"""
+
+    def __init__(self, rows):
+        self.rows = rows
+
+    def sym_getattr(self, ev, name, node, mod):
+        from ..sym import BoundLib
+        if name in ("to_numpy", "values"):
+            return BoundLib("parsedrows.same", self) if name == "to_numpy" else self
+        if name == "tolist":
+            return BoundLib("parsedrows.tolist", self)
+        raise ev.err(f"attribute {name} of a parsed text table", node, mod)
+
+
+def text_table_intrinsics():
+    from ..sym import lib_float
+
+    def stringio(ev, a, k):
+        if not (len(a) == 1 and isinstance(a[0], str)):
+            raise AnalysisError("io.StringIO of something that is not text read from the file")
+        return TextBuffer(a[0])
+
+    def read_table(ev, a, k):
+        buf = a[0]
+        if not isinstance(buf, TextBuffer):
+            raise AnalysisError("pandas.read_table of something that is not a text buffer of the file's lines")
+        sep = k.get("sep", k.get("delimiter"))
+        if sep not in (r"\s+",) and not k.get("delim_whitespace"):
+            raise AnalysisError(f"pandas.read_table with separator {sep!r}")
+        if k.get("header", "infer") is not None:
+            raise AnalysisError("pandas.read_table that takes the first row as a header")
+        for other in ("index_col", "names", "dtype", "engine", "skiprows", "comment"):
+            if k.get(other) is not None:
+                raise AnalysisError(f"pandas.read_table with {other}=")
+        prec = k.get("float_precision")
+        rows = []
+        for line in buf.text.splitlines():
+            if not line.strip():
+                continue
+            vals = [lib_float(ev, [tok], {}, None, None) for tok in line.split()]
+            if prec != "round_trip":
+                # pandas' default ('fast') and 'high' number parsers are not correctly rounded: about one full-precision number in six comes back one
+                # unit in the last place off; only float_precision="round_trip" (Python's own conversion) returns the tabulated double
+                vals = [sp.Function("PANDAS_INEXACT_FLOAT_PARSE")(v) for v in vals]
+            rows.append(Tup(vals, "list"))
+        return ParsedRows(rows)
+
+    return {"io.StringIO": stringio, "pandas.read_table": read_table, "pandas.read_csv": read_table,
+            "parsedrows.same": lambda ev, a, k: (k.all() if hasattr(k, "all") else None, a[0])[1],
+            "parsedrows.tolist": lambda ev, a, k: Tup(list(a[0].rows), "list")}
+
+
 def r_elast(ctx, model):
     patch_lines()
     f = model.func(f"{ED}:read_elast_data")
@@ -300,6 +364,7 @@ def r_elast(ctx, model):
     for name, text in (("a.dat", TABLE_A), ("b.dat", TABLE_B), ("c.dat", TABLE_C)):
         intr = io_intrinsics({name: text}, [])
         intr["cij.c_"] = c_intrinsic
+        intr.update(text_table_intrinsics())
         ev = Ev(model, {("global", "cij.util:c_"): LibV("cij.c_")}, intr, ctx=ctx)
         try:
             out = ev.call_def(f, model.mods[ED], f"{ED}:read_elast_data", [name], {})
